@@ -101,7 +101,7 @@ INVARIANTS = [
     "C05_MnExclusive", "C05_MnWorkersIdle",
 ]
 JOURNAL_INV = ["J_RestoreSucceeds", "J_OutcomesRestored", "J_InstFresh", "J_CrashKept", "J_DepsConsistent"]
-EAGER_ONLY = ["C01_OutcomeAtRest", "C02_QuiescentOk"]
+EAGER_ONLY = ["C01_OutcomeAtRest", "C02_QuiescentOk", "C08_OthersNotStuck"]
 STEP_PROPS = ["C03_NoEarlyStartStep", "C08_NoStartAfterCancelSeenStep", "C06_NoStartAfterGiveBackStep", "C06_StartedIsRealStep"]
 
 
